@@ -27,6 +27,7 @@ M = [
  ("parallel-end-marker-skipped-on-error", "src/parallel.rs", "                                done_send.send(Some(Err(e))).ok();\n                                break;", "                                done_send.send(Some(Err(e))).ok();\n                                return;", ["C15", "C08"]),
  ("parallel-dataset-init-error-swallowed", "src/parallel.rs", "            if empty_send.send(dataset_init()?).is_err() {\n                break;\n            }", "            let d = match dataset_init() {\n                Ok(d) => d,\n                Err(_) => break,\n            };\n            if empty_send.send(d).is_err() {\n                break;\n            }", ["C15"]),
  ("read-parallel-wrapper-swaps-threads-and-queue", "src/parallel.rs", "    read_parallel_init::<_, (), _, (), _, _, (), _, _, Out>(\n        n_threads,\n        queue_len,", "    read_parallel_init::<_, (), _, (), _, _, (), _, _, Out>(\n        queue_len as u32,\n        n_threads as usize,", ["C16"]),
+ ("write-seq-single-write-call", "src/fasta.rs", "    writer.write_all(seq)?;\n    writer.write_all(b\"\\n\")", "    writer.write(seq)?;\n    writer.write_all(b\"\\n\")", ["C10"]),
  ("serde-skip-npos", "src/fasta.rs", "    positions: Vec<BufferPosition>,\n    npos: usize,\n}", "    positions: Vec<BufferPosition>,\n    #[serde(skip)]\n    npos: usize,\n}", ["C19"]),
  ("recordsetiter-no-take", "src/fasta.rs", "            pos: self.positions.iter().take(self.npos),", "            pos: self.positions.iter().take(self.npos.max(self.positions.len().min(1))),", ["C06"]),
  ("fastq-unexpected-end-line", "src/fastq.rs", "            pos: self.get_error_pos(pos as u64, pos > RecordPos::Head),", "            pos: self.get_error_pos(pos as u64 + (pos as u64 / 2), pos > RecordPos::Head),", ["C17"]),
